@@ -159,53 +159,90 @@ func c13(c *Ctx) {
 			}
 		}
 		r.Check("OnDelete:handles-tombstone", okTomb, onD.Pos(), "deletions learned from a re-list (DeletedFinalStateUnknown) are handled")
-		// the pod passed to invalidation: phi of (obj.(*Pod)) and (tombstone.Obj.(*Pod))
-		okPod := false
+		// the pod(s) passed to invalidation: the deleted object asserted to *Pod, and the tombstone's Obj asserted to *Pod
+		direct, viaTomb, otherSrc := false, false, ""
+		var podLeaves func(v ssa.Value, d int)
+		seenPL := map[ssa.Value]bool{}
+		podLeaves = func(v ssa.Value, d int) {
+			if d > 8 || seenPL[v] {
+				return
+			}
+			seenPL[v] = true
+			switch x := v.(type) {
+			case *ssa.Phi:
+				for _, e := range x.Edges {
+					podLeaves(e, d+1)
+				}
+				return
+			case *ssa.Extract:
+				if ta, ok := x.Tuple.(*ssa.TypeAssert); ok && x.Index == 0 {
+					podLeaves(ta, d+1)
+					return
+				}
+			case *ssa.TypeAssert:
+				if paramIndex(onD, x.X) == 1 {
+					direct = true
+					return
+				}
+				if strings.HasSuffix(pathOf(x.X), ".Obj") {
+					viaTomb = true
+					return
+				}
+			case *ssa.Const:
+				if x.Value == nil {
+					return // the zero value of a failed assertion on an edge that does not reach the call feasibly
+				}
+			}
+			otherSrc = pathOf(v)
+		}
+		nInv := 0
 		for _, cl := range callsIn(onD) {
 			if staticCallee(cl) == inv {
-				if ph, ok := cl.Common().Args[1].(*ssa.Phi); ok {
-					direct, viaTomb := false, false
-					for _, e := range ph.Edges {
-						if ex, ok := e.(*ssa.Extract); ok {
-							if ta, ok := ex.Tuple.(*ssa.TypeAssert); ok {
-								if paramIndex(onD, ta.X) == 1 {
-									direct = true
-								} else if strings.HasSuffix(pathOf(ta.X), ".Obj") {
-									viaTomb = true
-								}
-							}
-						}
-					}
-					okPod = direct && viaTomb
-				}
+				nInv++
+				podLeaves(cl.Common().Args[1], 0)
 			}
 		}
-		r.Check("OnDelete:invalidates-with-deleted-pod", okPod, onD.Pos(), "the invalidated pod is the deleted object itself or the tombstone's Obj")
-		// returns without invalidation only when an assertion failed
-		eachInstr(onD, func(in ssa.Instruction) {
-			if rt, ok := in.(*ssa.Return); ok {
-				reachedInv := false
-				for _, cl := range callsIn(onD) {
-					if staticCallee(cl) == inv && (cl.Block() == rt.Block() || cl.Block().Dominates(rt.Block())) {
-						reachedInv = true
-					}
-				}
-				if !reachedInv {
-					cs := condStrings(rt.Block())
-					okc := false
-					for _, s := range cs {
-						if strings.HasSuffix(s, "#1=false") {
-							okc = true
-						}
-						if !strings.HasSuffix(s, "#1=false") && !strings.HasSuffix(s, "#1=true") {
-							okc = false
-							break
-						}
-					}
-					r.Check("OnDelete:skips-only-unknown-objects", okc, rt.Pos(), "return without invalidation under: "+strings.Join(cs, " && "))
+		r.Check("OnDelete:invalidates-with-deleted-pod", nInv >= 1 && direct && viaTomb && otherSrc == "", onD.Pos(), "the invalidated pod is the deleted object itself or the tombstone's Obj"+map[bool]string{true: "", false: " (also: " + otherSrc + ")"}[otherSrc == ""])
+		// a return without invalidation is reached only through a failed type assertion
+		const (
+			evInv = iota
+			evFail
+		)
+		ares := runAutomatonE(onD, 0, func(in ssa.Instruction) int {
+			if cl, ok := in.(ssa.CallInstruction); ok && staticCallee(cl) == inv {
+				return evInv
+			}
+			return -1
+		}, func(from, to *ssa.BasicBlock) int {
+			ifi, ok := from.Instrs[len(from.Instrs)-1].(*ssa.If)
+			if !ok || len(from.Succs) != 2 {
+				return -1
+			}
+			cd := normCond(Cond{V: ifi.Cond, Sense: to == from.Succs[0]})
+			if ex, ok := cd.V.(*ssa.Extract); ok && ex.Index == 1 {
+				if _, isTA := ex.Tuple.(*ssa.TypeAssert); isTA && !cd.Sense {
+					return evFail
 				}
 			}
+			return -1
+		}, func(st, ev int) int {
+			switch ev {
+			case evInv:
+				return 1
+			case evFail:
+				if st == 0 {
+					return 2
+				}
+			}
+			return st
 		})
+		okSkip := true
+		for _, st := range ares.ExitStates {
+			if st&1 != 0 {
+				okSkip = false
+			}
+		}
+		r.Check("OnDelete:skips-only-unknown-objects", okSkip, onD.Pos(), "every path that returns without invalidating passed a failed type assertion (an object that is neither a pod nor a tombstone holding one)")
 		// maybeInvalidate: delete reached whenever indexable
 		var del ssa.CallInstruction
 		for _, cl := range callsTo(inv, "builtin delete") {
@@ -216,7 +253,8 @@ func c13(c *Ctx) {
 			return
 		}
 		cs := condStrings(del.Block())
-		r.Check("invalidate:exactly-when-indexable", len(cs) == 1 && strings.Contains(cs[0], "isIndexablePod") && strings.HasSuffix(cs[0], "=true"), del.Pos(), "delete under exactly isIndexablePod(pod): "+strings.Join(cs, " && "))
+		fs := factsAt(del.Block())
+		r.Check("invalidate:exactly-when-indexable", len(fs) == 1 && fs[0].Op == token.ILLEGAL && fs[0].True && strings.Contains(condExpr(fs[0].V), "isIndexablePod"), del.Pos(), "delete under exactly isIndexablePod(pod): "+strings.Join(cs, " && "))
 		a := del.Common().Args
 		r.Check("invalidate:key", strings.HasSuffix(pathOf(a[0]), ".cache") && strings.HasSuffix(strings.TrimSuffix(pathOf(a[1]), ")"), "pod.Status.PodIP"), del.Pos(), "delete(p.cache, Source(pod.Status.PodIP))")
 	})
@@ -453,25 +491,65 @@ func c13(c *Ctx) {
 		}
 		r.Check("tagname:matches-the-key", paramIndex(tn, fs.Call.Args[1]) == 1 && paramIndex(tn, fs.Call.Args[0]) == 0, fs.Pos(), "re.FindStringSubmatch(s)")
 		kinds := map[string]int{}
+		elemIdx := func(v ssa.Value) ssa.Value {
+			switch x := v.(type) {
+			case *ssa.UnOp:
+				if ia, ok := x.X.(*ssa.IndexAddr); ok {
+					return ia.Index
+				}
+			case *ssa.Index:
+				return x.Index
+			}
+			return nil
+		}
+		isEmptyStr := func(v ssa.Value) bool { s, ok := constString(v); return ok && s == "" }
+		isTagConst := func(v ssa.Value) bool { s, ok := constString(v); return ok && s == tagGroupName(w) }
+		// the names of the capture groups: elements of re.SubexpNames()
+		isNameAt := func(v ssa.Value, idx ssa.Value) bool {
+			var names ssa.Value
+			switch x := v.(type) {
+			case *ssa.UnOp:
+				if ia, ok := x.X.(*ssa.IndexAddr); ok && ia.Index == idx {
+					names = ia.X
+				}
+			case *ssa.Index:
+				if x.Index == idx {
+					names = x.X
+				}
+			}
+			if names == nil {
+				return false
+			}
+			c, ok := names.(*ssa.Call)
+			return ok && isCall(c, "(*regexp.Regexp).SubexpNames") && paramIndex(tn, c.Call.Args[0]) == 0
+		}
 		eachInstr(tn, func(in ssa.Instruction) {
 			rt, ok := in.(*ssa.Return)
 			if !ok {
 				return
 			}
 			cs := strings.Join(condStrings(rt.Block()), " && ")
+			facts := factsAt(rt.Block())
 			v := rt.Results[0]
 			switch {
 			case isElemOf(v, fs):
 				kinds["group"]++
-				// guarded by the same element != "" and the group name == "tag"
-				elem := pathOf(v)
-				okNE := strings.Contains(cs, "("+elem+"!=\"\")=true")
-				okName := strings.Contains(cs, "==\""+tagGroupName(w)+"\")=true")
+				idx := elemIdx(v)
+				sameElem := func(x ssa.Value) bool { return isElemOf(x, fs) && elemIdx(x) == idx }
+				okNE := cmpHolds(facts, sameElem, isEmptyStr, token.NEQ)
+				okName := cmpHolds(facts, func(x ssa.Value) bool { return isNameAt(x, idx) }, isTagConst, token.EQL)
 				r.Check("tagname:group-non-empty", okNE, rt.Pos(), "the capture group's text is used only when it is non-empty (otherwise fall back to the whole key): "+cs)
 				r.Check("tagname:group-named-tag", okName, rt.Pos(), "the capture group used is the one named '"+tagGroupName(w)+"'")
 			case paramIndex(tn, v) == 1:
 				kinds["whole-key"]++
-				r.Check("tagname:whole-key-when-matched", strings.Contains(cs, "[0]!=\"\")=true") || strings.Contains(cs, "[0:int]!=\"\")=true"), rt.Pos(), "the whole key is the tag name when the regex matched: "+cs)
+				whole := func(x ssa.Value) bool {
+					if !isElemOf(x, fs) {
+						return false
+					}
+					k, isC := constInt(elemIdx(x))
+					return isC && k == 0
+				}
+				r.Check("tagname:whole-key-when-matched", cmpHolds(facts, whole, isEmptyStr, token.NEQ), rt.Pos(), "the whole key is the tag name when the regex matched: "+cs)
 			default:
 				if s, isS := constString(v); isS && s == "" {
 					kinds["none"]++
@@ -485,8 +563,7 @@ func c13(c *Ctx) {
 		okNil := false
 		eachInstr(tn, func(in ssa.Instruction) {
 			if rt, ok := in.(*ssa.Return); ok {
-				cs := strings.Join(condStrings(rt.Block()), " && ")
-				if s, isS := constString(rt.Results[0]); isS && s == "" && strings.Contains(cs, "FindStringSubmatch") && strings.Contains(cs, "==nil)=true") {
+				if s, isS := constString(rt.Results[0]); isS && s == "" && knownNil(factsAt(rt.Block()), func(x ssa.Value) bool { return x == ssa.Value(fs) }) {
 					okNil = true
 				}
 			}
@@ -517,8 +594,9 @@ func c13(c *Ctx) {
 						if !(ap.Block() == cl.Block() || cl.Block().Dominates(ap.Block())) {
 							continue
 						}
-						cs := strings.Join(condStrings(ap.Block()), " && ")
-						if strings.Contains(cs, "getTagNameFromRegex") && strings.Contains(cs, "!=\"\")=true") && strings.Contains(es, "+\":\")+") {
+						isName := func(x ssa.Value) bool { return x == cl.(ssa.Value) }
+						isEmpty := func(x ssa.Value) bool { s, ok := constString(x); return ok && s == "" }
+						if cmpHolds(factsAt(ap.Block()), isName, isEmpty, token.NEQ) && strings.Contains(es, "+\":\")+") {
 							okApp = true
 						}
 					}
